@@ -389,6 +389,22 @@ def record(job):
                     recs.append({'prog': name, 'src': text, 'config': cname, 'where': -999 if where is None else where,
                                  'outcome': outcome, 'changed': changed, 'sites': spaths, 'refused': rpaths, 'cand': cand,
                                  'edits': edits, 'old': old if g is not None else [], 'new': new, 'fw': fw, 'xr': xr, 'cur': cur})
+            # strategies that are not aimed: the cursor half of the property (what the reported edits did not touch is unchanged,
+            # a forwarded cursor names a descendant or raises)
+            for (cname, strat) in (('lift_context', S.lift_context), ('simplify', S.simplify), ('elim_iter', S.elim_iter), ('fuse', S.fuse)):
+                try:
+                    g = strat(f)
+                except Exception:       # noqa: BLE001
+                    continue
+                log = g.edits
+                if log is None:
+                    continue
+                fw = [{'p': enc_stmt(p), 'r': fw_json(g, StmtCursor(f.ast, p))} for p, _ in walk_stmts(f.ast)]
+                recs.append({'prog': name, 'src': text, 'config': cname, 'where': -999, 'outcome': 'ok', 'changed': g.format() != f.format(),
+                             'sites': [], 'refused': [], 'cand': [],
+                             'edits': [{'bp': enc_block(e.block_path), 'index': e.index, 'removed': e.removed, 'inserted': e.inserted}
+                                       for e in log.edits],
+                             'old': old, 'new': tree(g.ast), 'fw': fw, 'xr': [enc_stmt(p) for p in log.exprs_rewritten], 'cur': True})
             # `within`: the listing restricted to a statement is the part of the full listing at or beneath it
             for (cname, strat, kw, cand_pred) in configs()[:4]:
                 skw = dict(kw)
